@@ -2,6 +2,7 @@ package verifsim
 
 import (
 	"fmt"
+	"strings"
 
 	"github.com/metal-toolbox/audito-maldito/internal/simrt"
 )
@@ -47,6 +48,23 @@ func GenSshdMsg(t *simrt.Tape, form string, uniq int) *SshdMsg {
 	ip := ips[t.Choose(len(ips), "ip")]
 	port := t.Choose(65536, "port")
 	m := &SshdMsg{Form: form, PID: pid}
+	// unusually long messages: one field is stretched so that the message (or the framed record)
+	// lands around sshd's own message limit, around the ingester's read buffer, or far beyond both
+	target := 0
+	switch t.Choose(8, "long") {
+	case 4, 5:
+		target = 990 + t.Choose(60, "long.len")
+	case 6:
+		target = 4060 + t.Choose(60, "long.len")
+	case 7:
+		target = 1100 + t.Choose(8000, "long.len")
+	}
+	mark := ""
+	if target > 0 {
+		mark = stretchMark
+	}
+	userPlain := user
+	user += mark
 	fp := "SHA256:" + b64ish(t, 43)
 	if t.Choose(6, "md5fp") == 0 {
 		fp = "MD5:aa:bb:cc:dd:ee:ff:00:11:22:33:44:55:66:77:88:99"
@@ -56,7 +74,7 @@ func GenSshdMsg(t *simrt.Tape, form string, uniq int) *SshdMsg {
 		var p int
 		fmt.Sscan(pid, &p)
 		l := GenLogin(t, p, uniq)
-		l.User, l.IP, l.Port = user, ip, port
+		l.User, l.IP, l.Port = userPlain, ip, port
 		switch form {
 		case "accepted-key":
 			l.Form = "key"
@@ -77,9 +95,17 @@ func GenSshdMsg(t *simrt.Tape, form string, uniq int) *SshdMsg {
 		case "accepted-password":
 			l.Form = "password"
 		}
+		if target > len(l.Message()) {
+			ext := strings.Repeat("k", target-len(l.Message()))
+			if l.Form == "cert" && t.Choose(2, "long.field") == 1 {
+				l.KeyID += ext
+			} else {
+				l.User += ext
+			}
+		}
 		m.Login, m.Accepted, m.Msg = l, true, l.Message()
 	case "cert-invalid":
-		m.Msg = "Certificate invalid: " + certReasons[t.Choose(len(certReasons), "reason")]
+		m.Msg = "Certificate invalid: " + certReasons[t.Choose(len(certReasons), "reason")] + mark
 	case "invalid-user":
 		m.Msg = fmt.Sprintf("Invalid user %s from %s port %d", user, ip, port)
 	case "user-allowusers":
@@ -123,8 +149,32 @@ func GenSshdMsg(t *simrt.Tape, form string, uniq int) *SshdMsg {
 		}
 		m.Msg = fmt.Sprintf("Failed password for %s%s from %s port %d ssh2", inv, user, ip, port)
 	}
+	if target > 0 && !m.Accepted && form != "root-refused" {
+		if !strings.Contains(m.Msg, stretchMark) {
+			// forms without an account name: the last field (path, host name) is stretched
+			m.Msg += stretchMark
+			if strings.HasSuffix(m.Msg, ", ignoring"+stretchMark) || strings.HasSuffix(m.Msg, " failed."+stretchMark) || strings.HasSuffix(m.Msg, "address."+stretchMark) {
+				m.Msg = strings.TrimSuffix(m.Msg, stretchMark)
+				for _, d := range dnsNames {
+					if i := strings.Index(m.Msg, d); i >= 0 {
+						m.Msg = m.Msg[:i] + stretchMark + m.Msg[i:]
+						break
+					}
+				}
+			}
+		}
+		n := target - (len(m.Msg) - len(stretchMark))
+		if n < 0 {
+			n = 0
+		}
+		m.Msg = strings.Replace(m.Msg, stretchMark, strings.Repeat("k", n), 1)
+		m.Msg = strings.ReplaceAll(m.Msg, stretchMark, "")
+	}
+	m.Msg = strings.ReplaceAll(m.Msg, stretchMark, "")
 	return m
 }
+
+const stretchMark = "\x01S\x01"
 
 // Line frames the message as rsyslog does ("%PROCID% %msg%\n", %msg% optionally with its
 // leading blank).
